@@ -1420,9 +1420,11 @@ impl HashColumn {
 					table.validate_plan(record.index, log)?;
 				} else {
 					if record.table.index_bits() < tables.index.id.index_bits() {
-						// Insertion into a previously dropped index.
-						log::warn!( target: "parity-db", "Index {} is too old. Current is {}", record.table, tables.index.id);
-						return Err(Error::Corruption("Unexpected log index id".to_string()))
+						// Insertion into a previously dropped index. The log is cleaned later
+						// than the index is dropped, `enact_plan` skips it as well.
+						log::debug!( target: "parity-db", "Index {} is too old. Current is {}", record.table, tables.index.id);
+						IndexTable::skip_plan(log)?;
+						return Ok(())
 					}
 					// Re-launch previously started reindex
 					// TODO: add explicit log records for reindexing events.
@@ -1454,9 +1456,11 @@ impl HashColumn {
 					table.validate_plan(record.index, log)?;
 				} else {
 					if record.table.index_bits() < tables.get_ref_count().id.index_bits() {
-						// Insertion into a previously dropped ref count.
-						log::warn!( target: "parity-db", "Ref count {} is too old. Current is {}", record.table, tables.get_ref_count().id);
-						return Err(Error::Corruption("Unexpected log ref count id".to_string()))
+						// Insertion into a previously dropped ref count. The log is cleaned later
+						// than the table is dropped, `enact_plan` skips it as well.
+						log::debug!( target: "parity-db", "Ref count {} is too old. Current is {}", record.table, tables.get_ref_count().id);
+						RefCountTable::skip_plan(log)?;
+						return Ok(())
 					}
 					// Re-launch previously started reindex
 					// TODO: add explicit log records for reindexing events.
